@@ -17,12 +17,33 @@
        foreign rules ([nfchars]); in the appending modes also foster parenting off and a current node that is not a
        template element.
    NOT PROVED: tokens with other characters in these modes (the cut can fall inside the leading white-space run,
-   inside the rest or at the boundary).  Plan: a fuel-free big-step relation for the loop of process_to_completion
-   (the loop over [t; more] is the loop over t followed by the loop over more, when t answers Done); cut at a run
-   boundary = that decomposition; cut inside the first run = the statement for one class-tagged run, where the arms
-   "anything else" do not look at the text (they answer Reprocess with the same token), so both runs share the
-   cascade into "in body" and end with TreeSplitBody.v; cut later = induction on the first piece.  The statement has to
-   be conditional on the runs not exhausting the loop fuel (TreeFuel.v).
+   inside the rest or at the boundary).  Worked-out plan (no file of the invariant chain is needed, but it is a
+   development of its own, estimated at more than a thousand lines):
+     0. The statement has to be conditional: "if the three process_token calls answer Ok, the answers agree and the
+        states have the same core and DOM" - the loop fuel of a ++ b, a and b differs and loop termination is open
+        (TreeFuel.v).  Needed first: an Ok answer of ptc_loop does not depend on the fuel
+        (ptc_loop f1 .. = Ok r1 s1 -> ptc_loop f2 .. = Ok r2 s2 -> r1 = r2 /\ s1 = s2), and "the loop continuing with
+        the queued rest" against "a fresh process_token on the rest" (prelude + TreeFrame + that lemma).
+     1. Queue insensitivity: ptc_iter t more s depends on [more] only in the last match (Done: next token or
+        SContinue; Reprocess: queue kept; SplitWhitespace: rest appended; else: assert is_nil more).  Two runs with
+        the same current token and state but queues [NotSplit (a2 ++ b)] and [NotSplit a2] (or []) stay in lock step
+        until the current token answers Done.  Pitfall: SplitWhitespace [] answers SContinue and DROPS the queue; the
+        side condition (checked by running the model) has to exclude a SplitWhitespace answer for a class-tagged run.
+     2. Main claim by induction on the first piece, in a state whose NotSplit arm is b_split and that is not foreign;
+        r1 = first run of a ++ b:  r1 shorter than a: lock step on r1, then the claim for (a2, b);  r1 = a: lock step,
+        then step 0;  r1 = a ++ u: the current tokens differ ((c, a ++ u) against (c, a)).
+     3. r1 = a ++ u, white space: the run is processed at once in the same mode; [early_fin] / TreeSplitBody.body_fin
+        and the second-state lemmas of this file / TreeSplitBody.v compare the states; then the rests by TreeFrame.
+     4. r1 = a ++ u, other characters: the arms "anything else" do not look at the text (they answer Reprocess with
+        the token they got, or Done after `unexpected`): a table blind_at mode class with
+        step m (KChars c x) s = Ok r s' -> step m (KChars c y) s = Ok (r with y) s'.  Both runs share the cascade
+        (same states) until a mode whose arm uses the text: "in body" (loop-level version of ptc_body for a tagged
+        token), then body (a ++ u); body rest against body a; body (u ++ rest): two uses of the "in body" split lemma.
+        "in column group" cascades into "in table": not covered.
+     5. Base cases in the non-splitting modes: the closed forms behind text_mode_split_gen, body_mode_split,
+        foreign_mode_split restated for process_to_completion from a state with ignore_lf = false.
+     6. The side condition becomes a recursive predicate over the iterations (mirrored by a checker that runs
+        ptc_iter), the list theorem gets a second, weaker form (both runs RunOk -> same core and DOM).
    ======================================================================== *)
 From Coq Require Import List NArith Bool Arith Lia String.
 From HV Require Import Dom.DomSpec Dom.DomLemmas SinkSpec.Contract SinkSpec.ContractProofs.
